@@ -194,6 +194,18 @@ def check_text(text, acc, want_calls=False):
                           'source text %r names an existing path: TokenScanner opened it as a file: %s: %s' % (text, type(e).__name__, e))
         else:
             acc.violation('foreign-exception', case, 'stream raised %s: %s' % (type(e).__name__, e))
+    # 3b. accepted sources: the stream with the document envelope switched off (pickles only) and with everything switched off
+    if outcome == 'document' and not known_path:
+        for opts in ((False, False, True), (True, False, False)):
+            ge = GherkinEvents(GherkinEvents.Options(print_source=opts[0], print_ast=opts[1], print_pickles=opts[2]))
+            try:
+                evs = list(ge.enum({'source': {'uri': 'u', 'data': text, 'mediaType': 'text/x.cucumber.gherkin+plain'}}))
+                for e in evs:
+                    if not isinstance(e, dict) or len(e) != 1 or next(iter(e)) not in ENVELOPES or next(iter(e)) == 'parseError':
+                        acc.violation('envelope-kind', case, 'stream with options %s yielded %r for an accepted source' % (opts, str(e)[:80]))
+                        break
+            except Exception as e:  # noqa: BLE001
+                acc.violation('foreign-exception', case, 'stream with options %s raised %s: %s' % (opts, type(e).__name__, e))
     # 4. the stream API with its parser switched to stop-at-first-error (rejected sources: the other exception class travels through enum)
     if outcome and outcome.startswith('errors') and not known_path:
         ge = GherkinEvents(GherkinEvents.Options(print_source=True, print_ast=True, print_pickles=True))
@@ -279,6 +291,17 @@ def job_outline(hlen, first):
             for vw in itertools.product(VAL_ALPHA, repeat=vl):
                 t = outline_doc(h, ''.join(vw))
                 check_text(t, acc)
+        # values that quote their own (or each other's) placeholder: substitution must still end
+        selfref = [outline_doc(h, v) for v in ('see <%s>!' % h, '<%s><%s>' % (h, h), ' <%s' % h)]
+        selfref.append('Feature: f\n  Scenario Outline: o <%s> <q>\n    Given g <q> <%s>\n    Examples:\n      | %s | q |\n      | x <q> | y <%s> |\n' % (h, h, h, h))
+        for t in selfref:
+            if '\n' in h:
+                continue
+            try:
+                with time_limit(20):
+                    check_text(t, acc)
+            except _Timeout:
+                acc.violation('superlinear-or-hang', {'kind': 'text', 'text': t}, 'processing an outline whose example value quotes a placeholder did not finish in 20 s of CPU time')
     acc.sample({'slot': 'outline', 'text': t})
     return acc
 
